@@ -41,6 +41,10 @@ CHECKS = {
             "States are the canonical content of every module-level mutable object of blackbird.*; transitions are real load/loads calls of a 38-script menu built to collide on names (valid, templates, tdm, failing at every stage incl. inside includes, probes whose metadata/body mention leftover names). BFS to the fixpoint of the canonical state space plus all raw histories of length <=2 (thorough <=3); every transition's outcome must equal the script's outcome in a pristine interpreter; programs of consecutive loads must share no mutable object.",
             "Each history starts from the import-time state via fork (no knowledge of the state's names needed). ANTLR caches treated as transparent (cold pristine vs warm histories agree).",
             "DESIGN.md section 5 C12"),
+    "C13": ("model_checking", "explicit-state BFS over API event sequences on real program objects (replay-from-scratch), invariant checked in every state",
+            "12 programs/templates chosen for aliasing potential x 21 events (dumps, attribute reads, to_DiGraph, two template calls and a repeated one, match_template, operations on instances, 8 kinds of mutation of instances); BFS to depth 3 (thorough 5) with de-duplication on the tuple of digests; in every state: the program's digest (serialisation + deep content incl. optional keys) is unchanged, an instance changes only by mutations addressed to it, equal calls give equal instances.",
+            "Digest observes programs through public attributes and dumps(). Mutations of the returned graph are not events.",
+            "DESIGN.md section 5 C13"),
     # id: (category, technique, text, note, design_ref)
     "C02": ("exploration", "bounded-exhaustive enumeration of script prefixes (BFS over item sequences) vs reference denotation",
             "Every item sequence over the statement menu up to the stated depth is rendered, loaded by the real parser/evaluator and compared with an independently written reference denotation; complete for the stated alphabet and depth, nothing beyond.",
